@@ -85,7 +85,7 @@ def derived_factor(rng, fid, factors, wtype=None, defect=None):
         table = []
         for flat in flat_tabs[i]:
             table.append([list(flat[k * width:(k + 1) * width]) for k in range(len(deps))])
-        levels.append({"name": "L%d_%d" % (fid, i), "table": table, "weight": 1})
+        levels.append({"name": "L%d_%d" % (fid, i), "table": table, "weight": 2 if rng.random() < 0.12 else 1})
     win = {"type": wtype, "deps": [d["id"] for d in deps]}
     if wtype == "window":
         win.update({"width": width, "stride": stride, "start": start})
@@ -249,6 +249,23 @@ def gen_program(rng, max_space=60000, shape=None, features=None):
     return None
 
 
+def weighted_derived_leftover():
+    """Crossed within-trial derived factor with a weighted level over an uncrossed
+    source factor, repeated with a trailing partial group of 1 and of 2 (= number
+    of distinct combinations) trials."""
+    out = []
+    size = {"id": 0, "name": "size", "kind": "simple", "levels": [["s1", 1], ["s2", 1], ["s3", 1], ["s4", 1]]}
+    look = {"id": 1, "name": "look", "kind": "derived", "window": {"type": "within", "deps": [0]},
+            "levels": [{"name": "near", "weight": 2, "table": [[["s1"]], [["s2"]]]},
+                       {"name": "far", "weight": 1, "table": [[["s3"]], [["s4"]]]}]}
+    for t in (4, 5):
+        out.append(("weighted-derived-3+%d" % (t - 3), {
+            "factors": [size, look], "constraints": [{"id": 0, "kind": "MinimumTrials", "trials": t}],
+            "blocks": [{"id": 0, "kind": "CrossBlock", "design": [0, 1], "crossing": [1], "constraints": [], "rcc": True},
+                       {"id": 1, "kind": "Repeat", "block": 0, "constraints": [0]}], "main": 1}))
+    return out
+
+
 def corpus():
     """Hand-written programs: guide examples and one per known finding."""
     out = []
@@ -287,4 +304,5 @@ def corpus():
     out.append(("transition-crossed", {"factors": [color, text, rep], "constraints": [],
                                        "blocks": [{"id": 0, "kind": "CrossBlock", "design": [0, 1, 2], "crossing": [0, 2],
                                                    "constraints": [], "rcc": True}], "main": 0}))
+    out += weighted_derived_leftover()
     return out
